@@ -61,7 +61,8 @@ CaseFails(c) == TypeFails(c) \cup ErrFails(c) \cup AgreeFails(c)
 (*                                                                                              *)
 (* Type terms in worlds keep module qualification: <<"cls", "c1.Cfg", <<>>>>,                     *)
 (* <<"gen", "m1.P", <<int, str>>>> (an instance of a user generic class),                         *)
-(* <<"tparam", "V", <<>>>> (a type parameter inside a class declaration).                         *)
+(* <<"tparam", "V", <<>>>> (a type parameter inside a class declaration), and a NESTED class is     *)
+(* named by its dotted path: <<"cls", "m1.Outer.Inner", <<>>>>.                                   *)
 (*                                                                                              *)
 (* A declaration table D == [names, frets, classes]:                                             *)
 (*   names, frets  the LAST upstream module's variables / function results,                      *)
@@ -174,7 +175,40 @@ GenCT(w) ==
       qe == Entry(<<>>, <<TGen("m1.P", SubSeq(Inst1, 1, np))>>, NoFn, NoFn, GenAN(w), GenRN(w))
   IN IF w.sub THEN ("m1.P" :> pe) @@ ((GenLast(w) \o ".Q") :> qe) ELSE ("m1.P" :> pe)
 
-LastOf(w) == IF w.fam = "dag" THEN UpName(Len(w.mods)) ELSE GenLast(w)
+(* family "nest" (NESTED classes): m1 declares `class Outer` (attribute n: int) with the nested  *)
+(* `class Inner` (attribute z: float, method who() -> bytes) and `class Holder` (attribute inn and  *)
+(* method mk() typed Outer.Inner).  The LAST module (m1 itself: loc "same", or m2 which imports m1  *)
+(* plainly / under alias u) declares, per element of w.uses: "var" x = Outer.Inner(), "fn" f()      *)
+(* (inferred result), "ann" fa() -> Outer.Inner (annotated), "hold" h = Holder(), "sub" class       *)
+(* S(Outer.Inner) with s = S(), "kcls" class K (attribute inn, method mk typed Outer.Inner).        *)
+(* Class names in the tables are DOTTED for nested classes: "m1.Outer.Inner".                      *)
+NestLast(w) == IF w.loc = "same" THEN "m1" ELSE "m2"
+TInner == TCls("m1.Outer.Inner")
+NestedNames == {"m1.Outer.Inner"}
+HasUse(w, u) == \E x \in DOMAIN w.uses : w.uses[x] = u
+NoCls == [x \in {} |-> Entry(<<>>, <<>>, NoFn, NoFn, <<>>, <<>>)]
+NestCT(w) ==
+  LET L == NestLast(w) IN
+  ("m1.Outer" :> Entry(<<>>, <<>>, "n" :> TCls("int"), NoFn, <<"n">>, <<>>)) @@
+  ("m1.Outer.Inner" :> Entry(<<>>, <<>>, "z" :> TCls("float"), "who" :> TCls("bytes"),
+                             <<"z">>, <<"who">>)) @@
+  ("m1.Holder" :> Entry(<<>>, <<>>, "inn" :> TInner, "mk" :> TInner, <<"inn">>, <<"mk">>)) @@
+  (IF HasUse(w, "kcls")
+     THEN (L \o ".K") :> Entry(<<>>, <<>>, "inn" :> TInner, "mk" :> TInner, <<"inn">>, <<"mk">>)
+     ELSE NoCls) @@
+  (IF HasUse(w, "sub")
+     THEN (L \o ".S") :> Entry(<<>>, <<TInner>>, NoFn, NoFn, <<"z">>, <<"who">>)
+     ELSE NoCls)
+NestNames(w) ==
+  (IF HasUse(w, "var") THEN "x" :> TInner ELSE NoFn) @@
+  (IF HasUse(w, "hold") THEN "h" :> TCls("m1.Holder") ELSE NoFn) @@
+  (IF HasUse(w, "sub") THEN "s" :> TCls(NestLast(w) \o ".S") ELSE NoFn)
+NestFrets(w) ==
+  (IF HasUse(w, "fn") THEN "f" :> TInner ELSE NoFn) @@
+  (IF HasUse(w, "ann") THEN "fa" :> TInner ELSE NoFn)
+
+LastOf(w) == IF w.fam = "dag" THEN UpName(Len(w.mods))
+             ELSE IF w.fam = "nest" THEN NestLast(w) ELSE GenLast(w)
 ModelD(w) ==
   IF w.fam = "dag" THEN
     LET imps == w.mods[Len(w.mods)]
@@ -185,6 +219,8 @@ ModelD(w) ==
         frets |-> [n \in {Num("f", fs[x]) : x \in DOMAIN fs} |->
                      ImpType(imps[CHOOSE y \in DOMAIN imps : Num("f", y) = n])],
         classes |-> DagCT(w)]
+  ELSE IF w.fam = "nest" THEN
+    [names |-> NestNames(w), frets |-> NestFrets(w), classes |-> NestCT(w)]
   ELSE
     LET np == Len(w.params)
         p1 == TGen("m1.P", SubSeq(Inst1, 1, np))
@@ -203,13 +239,23 @@ Starts(w) ==
        IF imps[x].u = "var" THEN St("var", Num("x", x), TAny)
        ELSE IF imps[x].u = "fn" THEN St("call", Num("f", x), TAny)
        ELSE St("param", "o", TCls(LastOf(w) \o ".T"))]
+  ELSE IF w.fam = "nest" THEN
+    (* the last module's exports in the order of w.uses, then B's own annotations with m1's classes *)
+    [x \in DOMAIN w.uses |->
+       CASE w.uses[x] = "var" -> St("var", "x", TAny)
+         [] w.uses[x] = "fn" -> St("call", "f", TAny)
+         [] w.uses[x] = "ann" -> St("call", "fa", TAny)
+         [] w.uses[x] = "hold" -> St("var", "h", TAny)
+         [] w.uses[x] = "sub" -> St("var", "s", TAny)
+         [] OTHER -> St("param", "o", TCls(NestLast(w) \o ".K"))]
+    \o <<St("param", "o", TCls("m1.Holder")), St("param", "o", TInner)>>
   ELSE
     <<St("call", "mk", TAny), St("call", "mk2", TAny), St("var", "p", TAny)>>
     \o (IF w.loc = "same" THEN <<St("param", "o", TGen("m1.P", SubSeq(Inst1, 1, Len(w.params))))>>
         ELSE <<>>)
     \o (IF w.sub THEN <<St("call", "mkq", TAny), St("param", "o", TCls(GenLast(w) \o ".Q"))>>
         ELSE <<>>)
-MaxSteps(w) == IF w.fam = "dag" THEN 3 ELSE 1
+MaxSteps(w) == IF w.fam = "dag" THEN 3 ELSE IF w.fam = "nest" THEN 2 ELSE 1
 
 RECURSIVE Flat(_)
 Flat(ss) == IF ss = <<>> THEN <<>> ELSE Head(ss) \o Flat(Tail(ss))
@@ -242,6 +288,15 @@ Collides(w) ==
 TVRank == [K |-> 1, T |-> 2, V |-> 3]
 NonAlpha(w) ==
   w.fam = "gen" /\ \E x, y \in DOMAIN w.params : x < y /\ TVRank[w.params[y]] < TVRank[w.params[x]]
+
+(* a read goes THROUGH a nested class: the type of some prefix of its path (in table D) is a       *)
+(* nested class or a class whose first base is one                                                *)
+IsNestedT(CT, t) ==
+  /\ t[1] = "cls"
+  /\ \/ t[2] \in NestedNames
+     \/ /\ t[2] \in DOMAIN CT /\ Len(CT[t[2]].bases) > 0 /\ CT[t[2]].bases[1][2] \in NestedNames
+ThroughNested(D, r) ==
+  \E k \in 0 .. Len(r.p) : IsNestedT(D.classes, Walk(D.classes, StartType(D, r.s), SubSeq(r.p, 1, k)))
 
 (* ---------------------------------------------------------------- verdict for a recorded world *)
 (* c == [fam, w, reads, decls |-> recorded D, seen |-> [cfg |-> <<type of read j in B>>], errs]    *)
